@@ -599,3 +599,116 @@ Qed.
 
 Lemma init_ids_inv : forall sp eps, ids_inv (init sp eps).
 Proof. intros. unfold ids_inv, init. cbn [sv_subs sv_items sv_last_sub sv_item_ctr map]. split; [constructor|]. split; [intros e []|]. split; [constructor | intros e []]. Qed.
+
+(* ---------------- C29: no handler panics ---------------- *)
+
+Lemma set_node_same_refs : forall sp k n n', get_node sp k = Some n -> n_refs n' = n_refs n -> same_refs sp (set_node sp k n').
+Proof.
+  intros sp k n n' Hg Hr. split; [reflexivity|]. intros k0. destruct (N.eq_dec k0 k) as [->|Hne].
+  - rewrite get_set_node_same, Hg. cbn [option_map]. now rewrite Hr.
+  - now rewrite get_set_node_other.
+Qed.
+
+Lemma ns_attribute_same_refs : forall sp k attr sp' d, ns_attribute sp k attr = (sp', d) -> same_refs sp sp'.
+Proof.
+  intros sp k attr sp' d H. unfold ns_attribute in H.
+  destruct (get_node sp k) as [n|] eqn:G; [|inv_pair H; apply same_refs_refl].
+  destruct (negb (access n FlagCurrentRead)); [inv_pair H; apply same_refs_refl|].
+  destruct (attr =? AttrNodeID); [inv_pair H; apply same_refs_refl|].
+  destruct (attr =? AttrEventNotifier); [inv_pair H; apply same_refs_refl|].
+  destruct (attr =? AttrNodeClass).
+  - destruct (node_attr n attr) as [d0|]; [|inv_pair H; apply same_refs_refl].
+    destruct (dv_v d0); try (inv_pair H; apply same_refs_refl).
+    inv_pair H. eapply set_node_same_refs; [exact G | reflexivity].
+  - destruct (node_attr n attr); inv_pair H; apply same_refs_refl.
+Qed.
+
+Lemma read_one_same_refs : forall sp rv sp' d, read_one sp rv = (sp', d) -> same_refs sp sp'.
+Proof.
+  intros sp [[ns k] attr] sp' d H. unfold read_one in H. destruct (ns <? sp_ns sp); [|inv_pair H; apply same_refs_refl].
+  eapply ns_attribute_same_refs; eassumption.
+Qed.
+
+Lemma read_all_same_refs : forall l sp sp' ds, read_all sp l = (sp', ds) -> same_refs sp sp'.
+Proof.
+  induction l as [|rv t IH]; intros sp sp' ds H; cbn [read_all] in H; [inv_pair H; apply same_refs_refl|].
+  destruct (read_one sp rv) as [sp1 d] eqn:E1. destruct (read_all sp1 t) as [sp2 ds2] eqn:E2. inv_pair H.
+  eapply same_refs_trans; [eapply read_one_same_refs; eassumption | eapply IH; eassumption].
+Qed.
+
+Lemma notify_same_refs : forall items sp n, same_refs sp (notify items sp n).
+Proof.
+  unfold notify. induction items as [|e t IH]; intros sp n; cbn [fold_left]; [apply same_refs_refl|].
+  destruct (snd (it_node (snd e)) =? snd n); [|apply IH].
+  destruct (read_one sp (n, it_attr (snd e))) as [sp1 d] eqn:E. cbn [fst].
+  eapply same_refs_trans; [eapply read_one_same_refs; eassumption | apply IH].
+Qed.
+
+Lemma write_one_same_refs : forall sp wv sp' st, write_one sp wv = (sp', st) -> same_refs sp sp'.
+Proof.
+  intros sp [[[ns k] attr] v] sp' st H. unfold write_one in H. destruct (ns <? sp_ns sp); [|inv_pair H; apply same_refs_refl].
+  unfold ns_set_attribute in H. destruct (get_node sp k) as [n|] eqn:G; [|inv_pair H; apply same_refs_refl].
+  destruct (negb (access n FlagCurrentWrite)); inv_pair H; [apply same_refs_refl|].
+  eapply set_node_same_refs; [exact G|]. unfold node_set_attr. destruct (attr =? AttrValue); reflexivity.
+Qed.
+
+Lemma srv_write_all_same_refs : forall l items sp sp' sts, srv_write_all items sp l = (sp', sts) -> same_refs sp sp'.
+Proof.
+  induction l as [|wv t IH]; intros items sp sp' sts H; cbn [srv_write_all] in H; [inv_pair H; apply same_refs_refl|].
+  destruct (write_one sp wv) as [sp1 st] eqn:E1.
+  destruct (srv_write_all items (if st =? StOK then notify items sp1 (fst (fst wv)) else sp1) t) as [sp2 sts2] eqn:E2. inv_pair H.
+  eapply same_refs_trans; [eapply write_one_same_refs; eassumption|].
+  eapply same_refs_trans; [|eapply IH; eassumption]. destruct (st =? StOK); [apply notify_same_refs | apply same_refs_refl].
+Qed.
+
+(* the address space is fit for Browse: references carry a type, the HasSubtype recursion ends within `fuel` *)
+Definition space_ok (fuel : nat) (sp : space) : Prop := refs_typed sp /\ forall n, sub_refs fuel sp n <> None.
+
+Lemma space_ok_same : forall fuel sp sp', same_refs sp sp' -> space_ok fuel sp -> space_ok fuel sp'.
+Proof.
+  intros fuel sp sp' S [T F]. split; [eapply refs_typed_same; eassumption|].
+  intros n. rewrite (sub_refs_same fuel sp sp' n S). apply F.
+Qed.
+
+Lemma revise_ticker_positive : forall iv, (0 < ticker_ns (revise iv))%Z.
+Proof.
+  intros iv. assert (H : (1000 <= revise iv)%Z).
+  { unfold revise, IntervalMin, IntervalMax. destruct iv; try lia.
+    destruct (u <? 1000)%Z eqn:E1; [lia|]. destruct (86400000000 <? u)%Z eqn:E2; lia. }
+  unfold ticker_ns. assert (1 <= Z.quot (revise iv) 1000)%Z; [|lia].
+  rewrite Z.quot_div_nonneg by lia. apply Z.div_le_lower_bound; lia.
+Qed.
+
+Lemma handle_no_panic : forall fuel s e s' o, handle fuel s e = (s', o) -> space_ok fuel (sv_space s) ->
+  (forall w, o <> OPanic w) /\ o <> OOutOfFuel /\ space_ok fuel (sv_space s').
+Proof.
+  intros fuel s e s' o H OK.
+  assert (Sp : space_ok fuel (sv_space s')).
+  { destruct (handle_space _ _ _ _ _ H) as [E|[(c & t & l & ds & _ & _ & E)|(c & t & l & sts & _ & _ & E)]].
+    - now rewrite E.
+    - eapply space_ok_same; [eapply read_all_same_refs; exact E | exact OK].
+    - eapply space_ok_same; [eapply srv_write_all_same_refs; exact E | exact OK]. }
+  split; [|split; [|exact Sp]].
+  - intros w. destruct e as [chan tok r|id|id]; cbn [handle] in H; [|inv_pair H; discriminate|inv_pair H; discriminate].
+    destruct (negb (has_handler r)); [inv_pair H; discriminate|].
+    destruct (check_session s (svc_of r) tok); [inv_pair H; discriminate|].
+    destruct r; cbn [dispatch] in H; try (break_in H; inv_pair H; discriminate).
+    + destruct OK as [T F]. destruct (browse_all_ok fuel (sv_space s) l T F) as [x Hx]. rewrite Hx in H. inv_pair H. discriminate.
+    + destruct (alist_get tok (sv_sessions s)); [|inv_pair H; discriminate].
+      cbn [worker_start sub_owner sub_interval] in H.
+      pose proof (revise_ticker_positive iv) as P. destruct (ticker_ns (revise iv) <=? 0)%Z eqn:E; [lia|]. inv_pair H. discriminate.
+  - destruct e as [chan tok r|id|id]; cbn [handle] in H; [|inv_pair H; discriminate|inv_pair H; discriminate].
+    destruct (negb (has_handler r)); [inv_pair H; discriminate|].
+    destruct (check_session s (svc_of r) tok); [inv_pair H; discriminate|].
+    destruct r; cbn [dispatch] in H; try (break_in H; inv_pair H; discriminate).
+    destruct OK as [T F]. destruct (browse_all_ok fuel (sv_space s) l T F) as [x Hx]. rewrite Hx in H. inv_pair H. discriminate.
+Qed.
+
+Lemma run_no_panic : forall fuel h s, space_ok fuel (sv_space s) ->
+  Forall (fun o => (forall w, o <> OPanic w) /\ o <> OOutOfFuel) (outcomes fuel s h) /\ space_ok fuel (sv_space (run fuel s h)).
+Proof.
+  unfold run. induction h as [|e t IH]; intros s OK; cbn [outcomes fold_left]; [split; [constructor | exact OK]|].
+  unfold step at 2. destruct (handle fuel s e) as [s' o] eqn:E. cbn [fst].
+  destruct (handle_no_panic _ _ _ _ _ E OK) as (P1 & P2 & OK'). destruct (IH s' OK') as [F R].
+  split; [constructor; [split; assumption | exact F] | exact R].
+Qed.
